@@ -500,6 +500,14 @@ def updStore (w : World K) (sid : Nat) (f : Store K Nat → Store K Nat × Optio
 
 variable [Add K] [Mul K] [NatCast K] [LT K] [DecidableLT K]
 
+/-- the data every `out.append(transformed, t)` of `apply` will copy: the user function applied
+to the field read back from frame `k` -/
+def applyNewVals (w : World K) (f : Func K) (s : Store K Nat) : List (List K) :=
+  (s.times.zip s.frames).map (fun p =>
+    match s.template with
+    | some fi => f.vals p.1 fi (w.deref p.2)
+    | none => w.deref p.2)
+
 /-- one operation on the world.  Buffers are allocated at the end of the heap; a buffer that is
 allocated but not referenced afterwards (an operation that fails after the allocation) is
 unobservable garbage. -/
@@ -611,10 +619,7 @@ def step (w : World K) : Op K → World K × Except Err (Obs K)
         | none => (w, .error .bad)
         | some outS =>
           -- the data every `out.append(transformed, t)` will copy
-          let newVals : List (List K) := (s.times.zip s.frames).map (fun p =>
-            match s.template with
-            | some fi => f.vals p.1 fi (w.deref p.2)
-            | none => w.deref p.2)
+          let newVals : List (List K) := applyNewVals w f s
           let w1 := { w with heap := w.heap ++ newVals }
           match applyTo s f.info (List.range' w.heap.length newVals.length) outS, out with
           | (some o, none), none =>
